@@ -868,14 +868,46 @@ func (x *Exec) evComposite(st *State, e *ast.CompositeLit, _ bool) Val {
 	case *types.Struct:
 		inf := x.vc.info(srt)
 		if inf == nil || inf.Kind != kStruct {
+			// a library struct kept opaque: the literal is a fresh value whose uninterpreted field functions
+			// hold the keyed elements (zero for the fields left out); an unkeyed literal stays arbitrary
+			given := map[string]Val{}
+			keyed := true
 			for _, el := range e.Elts {
 				if kv, ok := el.(*ast.KeyValueExpr); ok {
+					var ft types.Type
+					if id, ok := kv.Key.(*ast.Ident); ok {
+						for i := 0; i < u.NumFields(); i++ {
+							if u.Field(i).Name() == id.Name {
+								ft = u.Field(i).Type()
+							}
+						}
+						if ft != nil {
+							given[id.Name] = x.evElt(st, kv.Value, ft)
+							continue
+						}
+					}
 					x.ev(st, kv.Value)
+					keyed = false
 				} else {
 					x.ev(st, el)
+					keyed = false
 				}
 			}
-			return x.havocVal(st, "lit", t)
+			lit := x.havocVal(st, "lit", t)
+			if keyed {
+				for i := 0; i < u.NumFields(); i++ {
+					f := u.Field(i)
+					fs := x.vc.sortOf(f.Type())
+					fn := opaqueFieldName(t, f.Name())
+					x.vc.declFun(fn, []string{lit.Sort}, fs)
+					if v, ok := given[f.Name()]; ok {
+						x.vc.termFact(eq(fmt.Sprintf("(%s %s)", fn, lit.T), v.T))
+					} else if len(given) > 0 {
+						x.vc.termFact(eq(fmt.Sprintf("(%s %s)", fn, lit.T), x.vc.zero(fs)))
+					}
+				}
+			}
+			return lit
 		}
 		vals := make([]string, len(inf.Fields))
 		for i, f := range inf.Fields {
